@@ -10,7 +10,7 @@ usage: seedeval.py <worktree> <seed-name> <property> [more properties to run...]
 import json, os, subprocess, sys, shutil, glob, time
 
 ENV = dict(os.environ, GOFLAGS="-mod=mod", GOPROXY="off", GOSUMDB="off", GOTOOLCHAIN="local")
-TESTS = "go test -vet=off -count=1 ./codec/... ./socket/... ./utils/... ./xfer/gzip/... ./mixer/websocket/websocket/..."
+TESTS = "go test -vet=off -count=1 ./codec/... ./socket ./utils/... ./xfer/gzip/... ./mixer/websocket/websocket/..."
 
 def sh(cmd, cwd, timeout=1800):
     p = subprocess.run(cmd, shell=True, cwd=cwd, env=ENV, capture_output=True, text=True, timeout=timeout)
@@ -63,6 +63,9 @@ def main():
             shutil.copy(f, os.path.join(d, os.path.basename(f) + ".txt"))
     out["ran"] = "existing tests with change; demo with and without change in a scratch worktree; ./bin/vcheck <property> %s on /repo with the patch applied, then reverted" % tier
     json.dump(out, open(os.path.join(d, "meta.json"), "w"), indent=1)
-    print(json.dumps({k: v for k, v in out.items() if k not in ("demo_output_with_change",)}, indent=1)[:4000])
+    print({k: out[k] for k in ["existing_tests_pass_with_change", "demo_fails_with_change", "demo_passes_without_change"]})
+    for p, c in out["checks"].items():
+        print(p, "DETECTED" if c["detected"] else "MISSED", "exit", c["exit"], c["wall_s"], "s")
+        print(c["output"][:900])
 
 main()
